@@ -5,7 +5,6 @@ use super::objectreceiver::ObjectReceiver;
 use super::writer::{ObjectMetadata, ObjectWriterBuilder};
 use crate::common::udpendpoint::UDPEndpoint;
 use crate::common::{alc, lct};
-use crate::receiver::writer::ObjectCacheControl;
 use crate::tools::error::FluteError;
 use crate::tools::error::Result;
 use std::collections::{BTreeMap, BTreeSet, HashMap, VecDeque};
@@ -516,18 +515,16 @@ impl Receiver {
                         obj.toi
                     );
 
-                    if obj.cache_control != Some(ObjectCacheControl::NoCache) {
-                        self.objects_completed.insert(
-                            obj.toi,
-                            ObjectCompletedMeta {
-                                metadata: obj.create_meta(),
-                            },
-                        );
-                    } else {
-                        if obj.cache_control.is_none() {
-                            log::error!("No cache expiration date for {:?}", obj.content_location);
-                        }
-                    }
+                    // Remember the completion whatever the cache directive is:
+                    // the directive tells how long the object may be cached, not
+                    // that the packets still to come for this TOI (repair symbols,
+                    // next transfers) describe a new object.
+                    self.objects_completed.insert(
+                        obj.toi,
+                        ObjectCompletedMeta {
+                            metadata: obj.create_meta(),
+                        },
+                    );
                 }
                 objectreceiver::State::Interrupted => {
                     log::debug!(
